@@ -77,21 +77,21 @@ type phaseInfo struct {
 }
 
 type concCase struct {
-	e      *env
-	work   string
-	idx    int
-	srv    *dohfake.Server
-	res    *ech.Resolver
-	clock  *vclock
-	names  []string
-	spec   zoneSpec
-	ver    int
-	seq    atomic.Int64
-	G      int
-	calls  []*concCall
-	ctls   []*ctlOp
-	phases []*phaseInfo
-	counts map[string]int64
+	e          *env
+	work       string
+	idx        int
+	srv        *dohfake.Server
+	res        *ech.Resolver
+	clock      *vclock
+	names      []string
+	spec       zoneSpec
+	ver        int
+	seq        atomic.Int64
+	G          int
+	calls      []*concCall
+	ctls       []*ctlOp
+	phases     []*phaseInfo
+	counts     map[string]int64
 	anyFailure bool
 }
 
